@@ -580,6 +580,9 @@ def c03_groups(tier, tag='C03'):
     gs.append(Group(tag + '.tLweApproxPhase', 'c03_encrypt.c', 'h_tLweApproxPhase', extract=[(TL, 'tLweApproxPhase')], loops=True, defines={'H_TLWE_PHASE': None}))
     gs.append(Group(tag + '.tLweSymDecrypt+T', 'c03_encrypt.c', 'h_tLweSymDecrypt', extract=[(TL, 'tLweSymDecrypt'), (TL, 'tLweSymDecryptT')], defines={'H_TLWE_DEC': None}))
     gs.append(Group(tag + '.tGswSymEncrypt+tGswEncryptB', 'c03_encrypt.c', 'h_tGswWrappers', extract=[(TG, 'tGswSymEncrypt'), (TG, 'tGswEncryptB')], defines={'H_TGSWWRAP': None}))
+    for (K, L) in ([(1, 2), (2, 3)] if tier == 'quick' else [(1, 1), (1, 2), (1, 3), (1, 4), (2, 2), (2, 3), (3, 2)]):
+        gs.append(Group('%s.tGswSymDecrypt.k=%d.l=%d' % (tag, K, L), 'c03_encrypt.c', 'h_tGswSymDecrypt', extract=[(TG, 'tGswSymDecrypt')], loops=True,
+                        defines={'H_TGSWDEC': None, 'VERIF_K': K, 'VERIF_L': L}, cbmc=['--memory-leak-check'], instance={'k': K, 'l': L}))
     # noiseless trivial samples: all-zero mask, b = mu (C14 contract enforced on the real body)
     gs.append(Group(tag + '.dep.lweNoiselessTrivial', 'c14_lwe.c', 'h_lweNoiselessTrivial', extract=[(LF, 'lweNoiselessTrivial')], enforce='lweNoiselessTrivial', loops=True))
     return gs
